@@ -47,6 +47,15 @@ def toksB (g : Graph) (b : Bnd) (nm : Nat → Nat) : Nat → Nat → List Nat
     | .atom c => [3000 + c]
     | .str f as => (4000 + 10 * f + as.length) :: as.flatMap (toksB g b nm k)
 
+/-- acyclicity under a binding environment (the occurs-check oracle on finite inputs). -/
+def acycB (g : Graph) (b : Bnd) : Nat → List Nat → Nat → Bool
+  | 0, _, _ => false
+  | fuel+1, path, i =>
+    let i := deref g b (g.size + 1) i
+    match node g i with
+    | .str _ as => !path.contains i && as.all (acycB g b fuel (i :: path))
+    | _ => true
+
 def cmpCode : Out → Int
   | .lt => -1
   | .gt => 1
@@ -77,8 +86,7 @@ def runCase (k a b : Nat) (g : Graph) : J :=
       let ua := toksB g bnd nmU k a
       let ub := toksB g bnd nmU k b
       -- occurs check: on finite inputs it succeeds iff the unifier is finite
-      let finiteAfter := toksB g bnd nmU (2 * g.size + 2) a
-      (true, ua, ub, true, if allAcyclic then (if finiteAfter.contains 0 then 0 else 1) else 7)
+      (true, ua, ub, true, if allAcyclic then (if acycB g bnd (g.size + 1) [] a then 1 else 0) else 7)
     | .fail => (false, [], [], false, if allAcyclic then 0 else 7)
     | .fuel => (false, [99], [99], false, 99)
   .l [.l [b2j (acyclic g a), b2j (acyclic g b), .n 1],
